@@ -59,12 +59,15 @@ var knownConsumers = map[string]string{
 }
 
 func wellKnownMime(tn string) (string, bool) {
+	// several patterns may match one media type (e.g. application/x-tar+gzip): since maps are
+	// ranged over in random order, pick the match with the smallest pattern to remain deterministic
+	var pattern, name string
 	for k, v := range mediaTypeNames {
-		if k.MatchString(tn) {
-			return v, true
+		if k.MatchString(tn) && (pattern == "" || k.String() < pattern) {
+			pattern, name = k.String(), v
 		}
 	}
-	return "", false
+	return name, pattern != ""
 }
 
 func mediaMime(orig string) string {
